@@ -208,6 +208,7 @@ impl<Sink: TokenSink> XmlTokenizer<Sink> {
                 if c == '\u{feff}' {
                     input.next();
                 }
+                self.discard_bom.set(false);
             } else {
                 return TokenizerResult::Done;
             }
